@@ -183,6 +183,9 @@ func propC15(c *Ctx, r *Report) {
 	r.Clauses = append(r.Clauses, memberKeyClause)
 	c.runMemberKeyAgree(r, "member.keyagree", "msl/internal/codegen")
 	r.floor("member.keyagree", 5)
+	r.Clauses = append(r.Clauses, zeroInitClause)
+	c.runZeroInitOpVariable(r, "zeroinit.opvariable")
+	r.floor("zeroinit.opvariable", 2)
 	r.floor("spirv.Block.walkers", 3)
 	r.floor("routing.index-sites", 3)
 	r.floor("hardened.ops", 6)
